@@ -194,3 +194,46 @@ def count_topological_orders(shape):
         return total
 
     return rec(())
+
+
+# ---------------------------------------------------------------------------------------------------------------------
+# Deviation-bounded exploration of environment answers (sequential code with a nondeterministic environment)
+class Chooser:
+    """Environment that answers choice points from a prefix (default answer 0 afterwards) and records what it was asked."""
+
+    def __init__(self, prefix=()):
+        self.prefix = list(prefix)
+        self.trace = []   # (number of options, choice, label)
+
+    def choose(self, n, label=""):
+        i = len(self.trace)
+        c = self.prefix[i] if i < len(self.prefix) else 0
+        if c >= n:
+            raise HarnessError("divergence while replaying a prefix: choice %d of %d at point %d (%s)" % (c, n, i, label))
+        self.trace.append((n, c, label))
+        return c
+
+
+def explore_choices(run, bound=None, limit=200000):
+    """run(Chooser) -> observation.  Enumerates every choice sequence with at most `bound` deviations from the default answer 0
+    (None: all).  Yields (choices, observation, chooser)."""
+    stack = [[]]
+    count = 0
+    while stack:
+        prefix = stack.pop()
+        ch = Chooser(prefix)
+        obs = run(ch)
+        count += 1
+        if count > limit:
+            raise HarnessError("choice-sequence limit %d exceeded" % limit)
+        choices = [c for _, c, _ in ch.trace]
+        yield choices, obs, ch
+        used = sum(1 for c in choices[:len(prefix)] if c)
+        dev = used
+        for i in range(len(prefix), len(ch.trace)):
+            n = ch.trace[i][0]
+            if bound is None or dev + 1 <= bound:
+                for alt in range(1, n):
+                    stack.append(choices[:i] + [alt])
+            if choices[i]:
+                dev += 1
